@@ -172,7 +172,10 @@ def run_case(case):
         what = case["what"]
         rng = random.Random(case["seed"] + 1)
         if what == "missing-target":
-            tgt = max(nums) + 7
+            # just behind the last line, or far away - also beyond the largest number a line may have
+            tgt = rng.choice([max(nums) + 7, max(nums) + 7, 32699, 32700, 32768, 40000, 63999, 65535])
+            if tgt in nums:
+                tgt = max(nums) + 7
             prog[rng.randrange(len(prog))][1].insert(1, ("goto", tgt) if rng.random() < 0.5 else
                                                     ("on", ("var", "A"), "GOTO", [nums[0], tgt]))
             want = "ParseError"
